@@ -33,6 +33,35 @@ fn render(f: Formatter) -> String {
     }
 }
 
+pub fn pe_code(e: &ParsingError) -> u32 {
+    match e {
+        ParsingError::UnknownFormat => 1,
+        ParsingError::ValueError => 2,
+        ParsingError::TimeSystem => 3,
+        ParsingError::ISO8601 => 4,
+        ParsingError::Lexical { .. } => 5,
+        ParsingError::UnsupportedTimeSystem => 7,
+        ParsingError::NothingToParse => 9,
+        ParsingError::UnknownOrMissingUnit => 10,
+        ParsingError::InvalidTimezone => 11,
+        ParsingError::UnknownWeekday => 12,
+        ParsingError::UnknownMonthName => 13,
+        ParsingError::UnexpectedCharacter { .. } => 14,
+        ParsingError::WeekdayMismatch { .. } => 15,
+        ParsingError::UnknownToken { .. } => 16,
+        _ => 99,
+    }
+}
+pub fn perr(r: Result<String, hifitime::HifitimeError>) -> String {
+    match r {
+        Ok(s) => s,
+        Err(hifitime::HifitimeError::InvalidGregorianDate) => "E6".to_string(),
+        Err(hifitime::HifitimeError::Duration { .. }) => "E8".to_string(),
+        Err(hifitime::HifitimeError::Parse { source, .. }) => format!("E{}", pe_code(&source)),
+        Err(_) => "E98".to_string(),
+    }
+}
+
 pub fn run(name: &str, a: &Args) -> Option<String> {
     Some(match name {
         "disp_dur" => ps(&format!("{}", a.dur(0))),
@@ -72,6 +101,133 @@ pub fn run(name: &str, a: &Args) -> Option<String> {
             let e = epoch(a, 0);
             let f = konst(a.z(6));
             render(if a.z(5) == 0 { Formatter::new(e, f) } else { Formatter::with_timezone(e, a.dur(3), f) })
+        }
+        "p_epoch" => perr(hifitime::Epoch::from_str(&s_of(a.l(0))).map(|e| format!("1 {}", crate::epoch::pep(e)))),
+        "p_greg" => perr(hifitime::Epoch::from_gregorian_str(&s_of(a.l(0))).map(|e| format!("1 {}", crate::epoch::pep(e)))),
+        "p_dur" => perr(hifitime::Duration::from_str(&s_of(a.l(0))).map(|d| format!("1 {}", crate::pdur(d)))),
+        "p_ts" => match hifitime::TimeScale::from_str(&s_of(a.l(0))) {
+            Ok(t) => format!("1 {}", u8::from(t)),
+            Err(e) => format!("E{}", pe_code(&e)),
+        },
+        "p_wd" => match hifitime::Weekday::from_str(&s_of(a.l(0))) {
+            Ok(w) => format!("1 {}", u8::from(w)),
+            Err(e) => format!("E{}", pe_code(&e)),
+        },
+        "p_month" => match hifitime::MonthName::from_str(&s_of(a.l(0))) {
+            Ok(m) => format!("1 {}", m as u8 + 1),
+            Err(e) => format!("E{}", pe_code(&e)),
+        },
+        "rt_disp" => {
+            let e = epoch(a, 0);
+            let s = format!("{e}");
+            let r = hifitime::Epoch::from_str(&s);
+            // the serde form is the same string, quoted
+            let js = serde_json::to_string(&e).expect("serialize");
+            assert!(js == format!("\"{s}\""), "serde_json form differs from Display");
+            let back: Result<hifitime::Epoch, _> = serde_json::from_str(&js);
+            match (&r, &back) {
+                (Ok(x), Ok(y)) => assert!(x.duration.to_parts() == y.duration.to_parts() && x.time_scale == y.time_scale),
+                (Err(_), Err(_)) => {}
+                _ => panic!("serde_json and from_str disagree"),
+            }
+            // the Gregorian string in its own scale parses the same way
+            let r2 = hifitime::Epoch::from_gregorian_str(&e.to_gregorian_str(e.time_scale));
+            match (&r, &r2) {
+                (Ok(x), Ok(y)) => assert!(x.duration.to_parts() == y.duration.to_parts() && x.time_scale == y.time_scale),
+                (Err(_), Err(_)) => {}
+                _ => panic!("from_gregorian_str and from_str disagree"),
+            }
+            perr(r.map(|e| format!("1 {}", crate::epoch::pep(e))))
+        }
+        "rt_rfc3339" => {
+            let e = hifitime::Epoch::from_duration(a.dur(0), hifitime::TimeScale::UTC);
+            perr(hifitime::Epoch::from_str(&e.to_rfc3339()).map(|e| format!("1 {}", crate::epoch::pep(e))))
+        }
+        "rt_iso" => {
+            let e = epoch(a, 0);
+            let s = format!("{}", Formatter::new(e, consts::ISO8601));
+            perr(hifitime::Epoch::from_str(&s).map(|e| format!("1 {}", crate::epoch::pep(e))))
+        }
+        "rt_dur" => {
+            let d = a.dur(0);
+            let s = format!("{d}");
+            let r = hifitime::Duration::from_str(&s);
+            let js = serde_json::to_string(&d).expect("serialize");
+            assert!(js == format!("\"{s}\""), "serde_json form differs from Display");
+            let back: Result<hifitime::Duration, _> = serde_json::from_str(&js);
+            match (&r, &back) {
+                (Ok(x), Ok(y)) => assert!(x.to_parts() == y.to_parts()),
+                (Err(_), Err(_)) => {}
+                _ => panic!("serde_json and from_str disagree"),
+            }
+            perr(r.map(|d| format!("1 {}", crate::pdur(d))))
+        }
+        "iso_parse" => {
+            let z = |i: usize| a.z(i);
+            let mut s = format!("{:04}-{:02}-{:02}{}{:02}:{:02}:{:02}", z(0), z(1), z(2), if z(12) == 0 { 'T' } else { ' ' }, z(3), z(4), z(5));
+            if z(7) > 0 {
+                s.push_str(&format!(".{:0width$}", z(6), width = z(7) as usize));
+            }
+            match z(8) {
+                1 => s.push('Z'),
+                2 => s.push_str(&format!("+{:02}:{:02}", z(9), z(10))),
+                3 => s.push_str(&format!("-{:02}:{:02}", z(9), z(10))),
+                _ => {}
+            }
+            if z(11) != 99 {
+                s.push_str(&format!(" {}", ts(z(11))));
+            }
+            perr(hifitime::Epoch::from_str(&s).map(|e| format!("1 {}", crate::epoch::pep(e))))
+        }
+        "p_fmt" => {
+            let r = hifitime::Epoch::from_format_str(&s_of(a.l(1)), &s_of(a.l(0)));
+            if let Ok(f) = Format::from_str(&s_of(a.l(0))) {
+                // from_str_with_format is the same parser given the Format value
+                let r2 = hifitime::Epoch::from_str_with_format(&s_of(a.l(1)), f);
+                assert!(r.is_ok() == r2.is_ok());
+            }
+            perr(r.map(|e| format!("1 {}", crate::epoch::pep(e))))
+        }
+        "p_fmt_const" => perr(konst(a.z(0)).parse(&s_of(a.l(1))).map(|e| format!("1 {}", crate::epoch::pep(e)))),
+        "rt_fmt" => {
+            let e = hifitime::Epoch::from_duration(a.dur(0), hifitime::TimeScale::UTC);
+            match Format::from_str(&s_of(a.l(2))) {
+                Ok(f) => {
+                    let s = format!("{}", Formatter::new(e, f));
+                    perr(f.parse(&s).map(|e| format!("1 {}", crate::epoch::pep(e))))
+                }
+                Err(_) => "*".to_string(),
+            }
+        }
+        "rt_fmt_const" => {
+            let e = hifitime::Epoch::from_duration(a.dur(0), hifitime::TimeScale::UTC);
+            let f = konst(a.z(2));
+            let s = format!("{}", Formatter::new(e, f));
+            perr(f.parse(&s).map(|e| format!("1 {}", crate::epoch::pep(e))))
+        }
+        "lex_i32" => match lexical_core::parse::<i32>(s_of(a.l(0)).as_bytes()) {
+            Ok(v) => format!("1 {v}"),
+            Err(_) => "0".to_string(),
+        },
+        "lex_i64" => match lexical_core::parse::<i64>(s_of(a.l(0)).as_bytes()) {
+            Ok(v) => format!("1 {v}"),
+            Err(_) => "0".to_string(),
+        },
+        "lex_u64" => match lexical_core::parse::<u64>(s_of(a.l(0)).as_bytes()) {
+            Ok(v) => format!("1 {v}"),
+            Err(_) => "0".to_string(),
+        },
+        "lex_f64" => match lexical_core::parse::<f64>(s_of(a.l(0)).as_bytes()) {
+            Ok(v) => format!("1 {}", if v.is_nan() { 0x7ff8000000000000u64 } else { v.to_bits() }),
+            Err(_) => "0".to_string(),
+        },
+        "std_i32" => match s_of(a.l(0)).parse::<i32>() {
+            Ok(v) => format!("1 {v}"),
+            Err(_) => "0".to_string(),
+        },
+        "uni_class" => {
+            let c = char::from_u32(a.z(0) as u32).expect("scalar");
+            format!("{} {} {}", c.is_numeric() as u8, c.is_whitespace() as u8, c.is_ascii_alphabetic() as u8)
         }
         _ => return None,
     })
